@@ -352,3 +352,25 @@ func (w *World) LiveValuesDeepCtx(fn *ssa.Function, eval CondFn, v ssa.Value, de
 	walk(fn, eval, v, ctx0, func(u ssa.Value) ssa.Value { return u }, depth)
 	return out
 }
+
+// inlineResult: v rewritten as the expression a single-return module helper computes for it, in the caller's terms
+// (`amount := state.AmountLeftToMint(expected)` reads as `expected.TruncateInt().Sub(state.AmountMinted)`); v itself
+// when it is not such a call. Two levels.
+func (w *World) inlineResult(v ssa.Value) ssa.Value {
+	for i := 0; i < 2; i++ {
+		c, ok := v.(*ssa.Call)
+		if !ok || c.Common().IsInvoke() {
+			return v
+		}
+		h := c.Common().StaticCallee()
+		if h == nil || h.Blocks == nil || !w.isProdFunc(h) || isGeneratedFile(w.FileOf(h.Pos())) {
+			return v
+		}
+		rets := Returns(h)
+		if len(rets) != 1 || len(retVals(rets[0])) != 1 {
+			return v
+		}
+		v = translateValue(retVals(rets[0])[0], bindParams(h, c), 0)
+	}
+	return v
+}
